@@ -838,145 +838,52 @@ func ruleCodecAgreement(c *Ctx, r *Report, rule string, spec *formatSpec) {
 
 // ruleUvarintLen: the length table of the sqlite4 varint.
 func ruleUvarintLen(c *Ctx, r *Report, rule string) {
-	r.rule(rule, 1, "uvarintLen maps the first byte to the total encoded length of a sqlite4 varint: <=240 -> 1, <=248 -> 2, otherwise first byte - 246 (249 -> 3 … 255 -> 9)")
-	_, fd := c.find("uvarintLen")
+	r.rule(rule, 1, "uvarintFromBuf, interpreted with a symbolic first byte, reads in total 1 byte when the first byte is <= 240, 2 bytes when it is <= 248 and (first byte - 246) bytes otherwise (249 -> 3 … 255 -> 9) — the sqlite4 varint layout — on paths that together cover 0..255; every buffer slice it reads into fits the buffer for the longest varint")
+	_, fd := c.find("uvarintFromBuf")
 	if fd == nil {
-		r.bad(rule, "uvarintLen", "function not found (the stream decoder needs the length of a varint from its first byte)", "")
+		r.bad(rule, "uvarintLen", "uvarintFromBuf not found (the stream decoder needs the length of a varint from its first byte)", "")
 		return
 	}
-	param := c.paramObj(fd, 0)
+	r.fn("uvarintFromBuf")
+	m := c.varintLenModel(fd)
+	want := func(b0 int64) int64 {
+		switch {
+		case b0 <= 240:
+			return 1
+		case b0 <= 248:
+			return 2
+		}
+		return b0 - 246
+	}
 	var rows []string
-	ok := true
-	resultOf := func(e ast.Expr) string {
-		if k, isC := c.intConst(e); isC {
-			return fmt.Sprint(k)
+	ok := len(m.Outcomes) > 0
+	next := int64(0)
+	for _, o := range m.Outcomes {
+		rows = append(rows, fmt.Sprintf("%d..%d:%s", o.Lo, o.Hi, o.Total))
+		if o.Lo != next {
+			ok = false // a gap or an overlap in the cover of 0..255
 		}
-		if be, isB := c.stripConv(e).(*ast.BinaryExpr); isB && be.Op == token.SUB && c.isObj(be.X, param) {
-			if k, isC := c.intConst(be.Y); isC {
-				return fmt.Sprintf("b0-%d", k)
-			}
-		}
-		return "?"
-	}
-	addCase := func(cond ast.Expr, body []ast.Stmt) {
-		if len(body) != 1 {
+		next = o.Hi + 1
+		k := o.Total.coef("b0")
+		cst, isC := o.Total.without("b0").isConst()
+		if !isC {
 			ok = false
-			return
+			continue
 		}
-		rs, isR := body[0].(*ast.ReturnStmt)
-		if !isR || len(rs.Results) != 1 {
-			ok = false
-			return
-		}
-		res := resultOf(rs.Results[0])
-		if cond == nil {
-			rows = append(rows, "else:"+res)
-			return
-		}
-		atoms, pure := c.nnf(cond, true, nil).conjuncts()
-		if !pure || len(atoms) != 1 {
-			ok = false
-			return
-		}
-		b, isB := c.boundOf(atoms[0])
-		if !isB || !c.isObj(b.X, param) || b.Hi == nil || b.Lo != nil {
-			ok = false
-			return
-		}
-		rows = append(rows, fmt.Sprintf("<=%d:%s", *b.Hi, res))
-	}
-	switch {
-	case len(fd.Body.List) == 1:
-		sw, isS := fd.Body.List[0].(*ast.SwitchStmt)
-		if !isS || sw.Tag != nil {
-			ok = false
-			break
-		}
-		for _, a := range c.switchArms(sw) {
-			if a.Default {
-				addCase(nil, a.Body)
-			} else if len(a.Exprs) == 1 {
-				addCase(a.Exprs[0], a.Body)
-			} else {
+		for b0 := o.Lo; b0 <= o.Hi; b0++ {
+			if k*b0+cst != want(b0) {
 				ok = false
+				break
 			}
 		}
-	default:
-		// if b0 <= 240 { return 1 }; if b0 <= 248 { return 2 }; return int(b0) - 246
-		for i, s := range fd.Body.List {
-			switch s := s.(type) {
-			case *ast.IfStmt:
-				if s.Else != nil || s.Init != nil {
-					ok = false
-				}
-				addCase(s.Cond, s.Body.List)
-			case *ast.ReturnStmt:
-				if i != len(fd.Body.List)-1 {
-					ok = false
-				}
-				addCase(nil, []ast.Stmt{s})
-			default:
-				ok = false
-			}
-		}
+	}
+	if next != 256 {
+		ok = false
 	}
 	got := strings.Join(rows, " ")
-	r.check(ok && got == "<=240:1 <=248:2 else:b0-246", rule, "uvarintLen", got, "uvarintLen table is ["+got+"]; sqlite4 varint: <=240:1 <=248:2 else:b0-246", c.pos(fd.Pos()))
-	// every buffer sliced up to a length obtained from uvarintLen holds the longest varint (255-246 = 9 bytes)
-	fobj, _ := c.find("uvarintLen")
-	for _, it := range c.sortedDecls() {
-		caller := it.fd
-		if caller.Body == nil {
-			continue
-		}
-		lens := map[types.Object]bool{}
-		ast.Inspect(caller.Body, func(n ast.Node) bool {
-			as, ok := n.(*ast.AssignStmt)
-			if !ok || len(as.Lhs) != 1 || len(as.Rhs) != 1 {
-				return true
-			}
-			if call, ok := c.stripConv(as.Rhs[0]).(*ast.CallExpr); ok && c.callee(call) == fobj {
-				if id, ok := as.Lhs[0].(*ast.Ident); ok {
-					lens[c.objOf(id)] = true
-				}
-			}
-			return true
-		})
-		if len(lens) == 0 {
-			continue
-		}
-		ast.Inspect(caller.Body, func(n ast.Node) bool {
-			se, ok := n.(*ast.SliceExpr)
-			if !ok || se.High == nil {
-				return true
-			}
-			hid, ok := stripParens(se.High).(*ast.Ident)
-			if !ok || !lens[c.objOf(hid)] {
-				return true
-			}
-			size := int64(-1)
-			switch t := c.typeOf(se.X).Underlying().(type) {
-			case *types.Array:
-				size = t.Len()
-			case *types.Pointer:
-				if a, ok := t.Elem().Underlying().(*types.Array); ok {
-					size = a.Len()
-				}
-			case *types.Slice:
-				if id, ok := stripParens(se.X).(*ast.Ident); ok {
-					if def, n := c.singleDef(caller.Body, c.objOf(id)); n == 1 {
-						if mk, ok := def.(*ast.CallExpr); ok && c.calleeName(mk) == "make" && len(mk.Args) >= 2 {
-							if k, isC := c.intConst(mk.Args[1]); isC {
-								size = k
-							}
-						}
-					}
-				}
-			}
-			name := qname(it.obj)
-			r.check(size >= 9, rule, name+"/"+types.ExprString(se), fmt.Sprintf("buffer of %d bytes", size), fmt.Sprintf("%s is sliced up to a length given by uvarintLen (at most 9) but holds %d bytes: a 9-byte varint (first byte 255) does not fit", types.ExprString(se.X), size), c.pos(se.Pos()))
-			return true
-		})
+	r.check(ok && len(m.Problems) == 0, rule, "uvarintLen", got, fmt.Sprintf("uvarintFromBuf reads [%s] bytes by first byte; sqlite4 varint: 0..240:1 241..248:2 249..255:b0-246 %v", got, m.Problems), c.pos(fd.Pos()))
+	for i, b := range m.Buffers {
+		r.ok(rule, fmt.Sprintf("uvarintFromBuf/buffer#%d", i+1), b)
 	}
 }
 
